@@ -2,8 +2,8 @@
    Only statements, closed by [exact lemma], with Print Assumptions beneath. *)
 From Coq Require Import String List NArith ZArith Bool.
 From J5V.lib Require Import Outcome Json.
-From J5V.model Require Import CodecTypes CodecDecScalar CodecDec CodecDecQuery.
-From J5V.proofs Require Import CodecDecProofs CodecDecExact.
+From J5V.model Require Import CodecTypes CodecDecScalar CodecDec CodecDecQuery CodecDecTree.
+From J5V.proofs Require Import CodecDecProofs CodecDecExact CodecDecTreeProofs CodecDecFaults.
 Import ListNotations.
 Local Open Scope N_scope.
 
@@ -146,6 +146,54 @@ Definition sib_env : env :=
 Definition sib_doc : bytes := [123;34;97;34;58;34;120;34;44;34;98;34;58;34;121;34;125].
 Example C03_example_oneof_siblings : is_err (decode_bytes no_oracles sib_env [78] sib_doc) = true.
 Proof. vm_compute. reflexivity. Qed.
+
+(* ------------------------------------------------------------------ documents: positions *)
+(* The decoder model that is tied to the Go code works on tokens.  On the tokens of a document tree
+   j (followed by anything) it computes exactly the tree reading [tr_decode] of j: members, elements
+   and map values are visited in document order with the same checks. *)
+Theorem C03_token_model_is_tree_reading : forall orc e root bs j rest me,
+  lex bs = (tokens_of j ++ rest, me) ->
+  decode_bytes orc e root bs = tr_decode orc e (S (jsize j)) root j.
+Proof. exact decode_bytes_tree. Qed.
+Print Assumptions C03_token_model_is_tree_reading.
+
+(* Rejection clause, at document level: [faulty_members] / [faulty_oneof] (proofs/CodecDecFaults.v)
+   say that somewhere in the document — top level, nested object, array element, map value, oneof
+   arm, to any depth — there is a value of the wrong JSON type, a number / base64 / date / decimal /
+   timestamp text that its kind's conversion refuses, an unknown enum name, an unknown key, a null
+   array element or map value, a "!type" that is not a string, more than one key in a oneof, or a
+   "!type" contradicting the key present.  Every such document is rejected with an error. *)
+Theorem C03_fault_at_any_position_rejected : forall orc e root bs ms rest me,
+  lex bs = (tokens_of (JObj ms) ++ rest, me) ->
+  (exists props, lookup e root = Some (SObject props) /\ faulty_members orc e props ms) \/
+  (exists props, lookup e root = Some (SOneof props) /\ faulty_oneof orc e props ms) ->
+  is_err (decode_bytes orc e root bs) = true.
+Proof. exact faulty_document_rejected. Qed.
+Print Assumptions C03_fault_at_any_position_rejected.
+
+(* {"c":{"c":{"r":["a",null]}}} on the environment below: a null array element two objects deep *)
+Definition pos_env : env :=
+  [([78], SObject [mkProp [114] [2] false false [] (FArray (FScalar KString));
+                   mkProp [99] [5] false true [] (FObject [78])])].
+Definition pos_tree : jvalue :=
+  JObj [([99], JObj [([99], JObj [([114], JArr [JStr [97]; JNull])])])].
+Definition pos_doc : bytes :=
+  [123;34;99;34;58;123;34;99;34;58;123;34;114;34;58;91;34;97;34;44;110;117;108;108;93;125;125;125].
+Example C03_example_fault_position :
+  lex pos_doc = (tokens_of pos_tree ++ [], false) /\
+  faulty_members no_oracles pos_env
+    [mkProp [114] [2] false false [] (FArray (FScalar KString)); mkProp [99] [5] false true [] (FObject [78])]
+    [([99], JObj [([99], JObj [([114], JArr [JStr [97]; JNull])])])] /\
+  is_err (decode_bytes no_oracles pos_env [78] pos_doc) = true.
+Proof.
+  split; [vm_compute; reflexivity|]. split; [|vm_compute; reflexivity].
+  eapply M_member with (k := [99]); [left; reflexivity | reflexivity | discriminate |].
+  eapply F_object_inside; [reflexivity|].
+  eapply M_member with (k := [99]); [left; reflexivity | reflexivity | discriminate |].
+  eapply F_object_inside; [reflexivity|].
+  eapply M_member with (k := [114]); [left; reflexivity | reflexivity | discriminate |].
+  eapply F_array_element with (v := JNull); [right; left; reflexivity | apply E_null].
+Qed.
 
 (* ------------------------------------------------------------------ URL query parameters *)
 (* a scalar supplied as the single value of a query parameter is stored exactly as the JSON member
